@@ -20,18 +20,22 @@ static size_t rsize, roff;
 static uint8_t *ptrs[MAXP]; static size_t nptrs;           /* every allocation result, NULLs included */
 static struct { uint8_t *p; size_t n; } shadow[MAXP]; static size_t nshadow;
 static size_t pat_counter;
+static int sparse;      /* obs=sparse: used/free are queried only on `observe` */
+/* private view of used bytes (no call into the library) for the walkers and the shadow list */
+static size_t priv_used(void) { return (size_t)(pool->free_ptr - pool->low_ptr); }
 
 static void shim_reset(void) {
     if (raw) __real_free(raw);
     if (pstruct) __real_free(pstruct);
-    raw = region = pstruct = NULL; pool = NULL; nptrs = nshadow = 0; pat_counter = 0;
+    raw = region = pstruct = NULL; pool = NULL; nptrs = nshadow = 0; pat_counter = 0; sparse = 0;
 }
 static void o_ptr(uint8_t *p) {
     if (!p) o(" p=NULL"); else o(" p=%lld", (long long)(p - region));
 }
-static void obs_abs(void) {
+static void obs_sweep(void) {
     if (pool) o(" used=%zu free=%zu", cc_static_pool_used_bytes(pool), cc_static_pool_free_bytes(pool));
 }
+static void obs_abs(void) { if (!sparse) obs_sweep(); }
 static void phys(void) {
     if (!pool) { o("-"); return; }
     o("size=%zu free=%zu high=%zu ", pool->size, (size_t)(pool->free_ptr - pool->low_ptr),
@@ -50,14 +54,14 @@ static void phys(void) {
             if (shadow[i].n && shadow[j].n && shadow[i].p < shadow[j].p + shadow[j].n && shadow[j].p < shadow[i].p + shadow[i].n)
                 o(" WALK=blocks-overlap");
     }
-    if (tot != cc_static_pool_used_bytes(pool)) o(" WALK=used-not-sum-of-live-blocks");
-    if (cc_static_pool_used_bytes(pool) + cc_static_pool_free_bytes(pool) != rsize) o(" WALK=used-plus-free");
+    if (tot != priv_used()) o(" WALK=used-not-sum-of-live-blocks");
+    if (!sparse && cc_static_pool_used_bytes(pool) + cc_static_pool_free_bytes(pool) != rsize) o(" WALK=used-plus-free");
     if (cc_static_pool_struct_size() != sizeof(CC_StaticPool)) o(" WALK=struct-size");
 }
 static void handed_out(uint8_t *p, size_t n, size_t used_before) {
     if (nptrs < MAXP) ptrs[nptrs++] = p;
     if (!p) {
-        if (cc_static_pool_used_bytes(pool) != used_before) o(" WALK=null-changed-used");
+        if (priv_used() != used_before) o(" WALK=null-changed-used");
         return;
     }
     if (nshadow < MAXP) { shadow[nshadow].p = p; shadow[nshadow].n = n; nshadow++; }
@@ -70,6 +74,7 @@ static void do_op(Cmd *c) {
     if (is_op(c, "new")) {
         shim_reset();
         rsize = kv_u64(c, "size", 16); roff = kv_u64(c, "off", 0);
+        sparse = !strcmp(kv_str(c, "obs", "full"), "sparse");
         raw = __real_malloc(CAN + roff + rsize + CAN);
         memset(raw, CANARY, CAN + roff + rsize + CAN);
         region = raw + CAN + roff;
@@ -79,12 +84,14 @@ static void do_op(Cmd *c) {
         if (st != CC_OK) pool = NULL;
         o_stat(st);
     } else if (!pool) { o("st=- nosession"); o_sep(); o("-"); return;
+    } else if (is_op(c, "observe")) {
+        o("st=-"); obs_sweep(); o_sep(); phys(); return;
     } else if (is_op(c, "malloc")) {
-        size_t n = pos_u64(c, 0), u = cc_static_pool_used_bytes(pool);
+        size_t n = pos_u64(c, 0), u = priv_used();
         uint8_t *p = cc_static_pool_malloc(n, pool);
         o("st=-"); o_ptr(p); handed_out(p, n, u);
     } else if (is_op(c, "calloc")) {
-        size_t a = pos_u64(c, 0), b = pos_u64(c, 1), u = cc_static_pool_used_bytes(pool);
+        size_t a = pos_u64(c, 0), b = pos_u64(c, 1), u = priv_used();
         uint8_t *p = cc_static_pool_calloc(a, b, pool);
         o("st=-"); o_ptr(p);
         if (p) {
@@ -100,9 +107,9 @@ static void do_op(Cmd *c) {
         uint8_t *p = NULL;
         if (kv_str(c, "idx", NULL)) { size_t k = kv_u64(c, "idx", 0); p = k < nptrs ? ptrs[k] : NULL; }
         else if (kv_str(c, "off", NULL)) p = region + kv_u64(c, "off", 0);
-        size_t u = cc_static_pool_used_bytes(pool);
+        size_t u = priv_used();
         cc_static_pool_free(p, pool);
-        size_t u2 = cc_static_pool_used_bytes(pool);
+        size_t u2 = priv_used();
         if (u2 < u && nshadow) nshadow--;      /* the roll-back slot was used */
         o("st=-");
     } else if (is_op(c, "pool_reset")) {
